@@ -59,6 +59,47 @@ fn build(buttons: u8, sel: u8) -> Joypad {
   j
 }
 
+/// the same state with a request latched and not yet collected: a button outside `buttons`
+/// is pressed while both groups are selected (its line falls) and released again, then the
+/// wanted buttons and selection are established (any further fall only re-latches)
+fn build_pending(buttons: u8, sel: u8) -> Option<Joypad> {
+  let mut j = Joypad::new();
+  j.set_value(0x00);
+  let spare = (0..8).find(|i| buttons & (1 << i) == 0);
+  match spare {
+    Some(x) => {
+      j.press_button(button(x));
+      j.release_button(button(x));
+    },
+    None => {
+      // every button is held in the target state: pressing the first one makes its line fall
+    },
+  }
+  for i in 0..8 {
+    if buttons & (1 << i) != 0 {
+      j.press_button(button(i));
+    }
+  }
+  j.set_value(sel);
+  Some(j)
+}
+
+fn build_io_pending(buttons: u8, sel: u8) -> IO {
+  let mut io = IO::new();
+  io.set_byte(0xFF00, 0x00);
+  if let Some(x) = (0..8).find(|i| buttons & (1 << i) == 0) {
+    io.joypad.press_button(button(x));
+    io.joypad.release_button(button(x));
+  }
+  for i in 0..8 {
+    if buttons & (1 << i) != 0 {
+      io.joypad.press_button(button(i));
+    }
+  }
+  io.set_byte(0xFF00, sel);
+  io
+}
+
 fn build_io(buttons: u8, sel: u8) -> IO {
   let mut io = IO::new();
   for i in 0..8 {
@@ -116,18 +157,21 @@ pub fn run(tier: &str) -> i32 {
           next.sel = ((a - 16) as u8) & 0x30;
           ("select", format!("P1<-{:02X}", a - 16))
         };
-        let want_irq = base.lines() & !next.lines() != 0;
         let want_p1 = next.p1();
-        for via_io in 0..2 {
-          let (got_p1, got_irq, again) = if via_io == 0 {
-            let mut j = build(buttons, sel);
+        for via_io in 0..4 {
+          // via 0/1: latch empty before the action; via 2/3: a request is already latched and
+          // not yet collected (it must survive any action: "reported once", never dropped)
+          let pending = via_io >= 2;
+          let want_irq = pending || base.lines() & !next.lines() != 0;
+          let (got_p1, got_irq, again) = if via_io % 2 == 0 {
+            let mut j = if pending { build_pending(buttons, sel).unwrap() } else { build(buttons, sel) };
             if a < 8 { j.press_button(button(a)) } else if a < 16 { j.release_button(button(a - 8)) } else { j.set_value((a - 16) as u8) }
             let p = j.get_value() & 0x3f;
             let i = j.get_interrupt().as_u8() != 0;
             let i2 = j.get_interrupt().as_u8() != 0;
             (p, i, i2)
           } else {
-            let mut io = build_io(buttons, sel);
+            let mut io = if pending { build_io_pending(buttons, sel) } else { build_io(buttons, sel) };
             if a < 8 { io.joypad.press_button(button(a)) } else if a < 16 { io.joypad.release_button(button(a - 8)) } else { io.set_byte(0xFF00, (a - 16) as u8) }
             let p = io.get_byte(0xFF00) & 0x3f;
             io.run_clock_cycles(ClockCycles(4), &vram, &oam);
@@ -139,9 +183,14 @@ pub fn run(tier: &str) -> i32 {
           };
           ctx.count(0, 1);
           // outcome class: (action class, lines before, lines after, irq)
-          let cls = ((a.min(16) as u64) << 10) | ((base.lines() as u64) << 6) | ((next.lines() as u64) << 2) | ((got_irq as u64) << 1) | via_io as u64;
+          let cls = ((a.min(16) as u64) << 11) | ((base.lines() as u64) << 7) | ((next.lines() as u64) << 3) | ((got_irq as u64) << 2) | via_io as u64;
           ctx.class(cls);
-          let via = if via_io == 0 { "joypad" } else { "io" };
+          let via = match via_io {
+            0 => "joypad",
+            1 => "io",
+            2 => "joypad+latched",
+            _ => "io+latched",
+          };
           let detail = |what: &str| {
             J::obj()
               .set("case", J::obj().set("buttons", J::u(buttons as u64)).set("sel", J::u(sel as u64)).set("action", J::s(adesc.as_str())).set("via", J::s(via)))
@@ -155,7 +204,7 @@ pub fn run(tier: &str) -> i32 {
             ctx.violation(&format!("C17 action={} field=p1", aclass), || detail("P1 & 0x3F differs from the matrix"));
           }
           if got_irq != want_irq {
-            let kind = if want_irq { "missed" } else { "spurious" };
+            let kind = if pending { "latched-request-dropped" } else if want_irq { "missed" } else { "spurious" };
             ctx.violation(&format!("C17 action={} field=irq kind={}", aclass, kind), || detail("interrupt request differs from 'some line went 1->0'"));
           }
           if again {
@@ -166,7 +215,7 @@ pub fn run(tier: &str) -> i32 {
     },
     |case, how| (format!("C17 crash={}", how), J::obj().set("state", J::u(case))),
   );
-  let counters = rep.add_stage("transition-relation", "256 button states x 4 selections x (8 press + 8 release + 256 select-write values) x {Joypad API, IO bus}", r);
+  let counters = rep.add_stage("transition-relation", "256 button states x 4 selections x {latch empty, request latched} x (8 press + 8 release + 256 select-write values) x {Joypad API, IO bus}", r);
   let transitions = counters[0];
   // power-on state
   {
@@ -176,7 +225,7 @@ pub fn run(tier: &str) -> i32 {
     }
   }
   rep.evaluations = transitions;
-  rep.cov("states", J::u(n_states + 1));
+  rep.cov("states", J::u(2 * n_states + 1));
   rep.cov("transitions", J::u(transitions));
   rep.cov("traces_validated_against_impl", J::u(transitions));
   rep.cov("rule", J::s("every (state, action) pair of the joypad is executed on the real Joypad and through IO; a class is (action kind, lines before, lines after, request, path) and is counted once"));
